@@ -175,7 +175,7 @@ Section Par1Safety.
     pose proof (io_read_np (volume_path ix (N.of_nat (S i))) st q) as HR.
     destruct (io_read (volume_path ix (N.of_nat (S i))) st) as [[b|x|q'] st1]; cbn [fst] in HR.
     - pose proof (read_volume_np b q) as HV.
-      destruct (read_volume md5 b) as [v|x|q']; [|cbn [fst]; discriminate|cbn [fst]; congruence].
+      destruct (read_volume md5 b) as [v|x|q']; [|apply IH|cbn [fst]; congruence].
       repeat lazymatch goal with
              | |- fst (if ?c then _ else _) <> _ => destruct c; [cbn [fst]; discriminate|]
              end.
@@ -376,9 +376,10 @@ Section Par1Safety.
     - injection H as _ <-. apply nf_refl.
     - destruct (io_read (volume_path ix (N.of_nat (S i))) st) as [[b|x|q] st1] eqn:ER.
       + pose proof (io_read_ok_nf _ _ _ _ ER) as N1.
-        destruct (read_volume md5 b) as [v|x|q]; try discriminate H.
-        repeat lazymatch type of H with (if ?c then _ else _) = _ => destruct c; [discriminate H|] end.
-        eapply nf_trans; [exact N1|eapply IH; exact H].
+        destruct (read_volume md5 b) as [v|x|q]; [| |discriminate H].
+        * repeat lazymatch type of H with (if ?c then _ else _) = _ => destruct c; [discriminate H|] end.
+          eapply nf_trans; [exact N1|eapply IH; exact H].
+        * eapply nf_trans; [exact N1|eapply IH; exact H].
       + destruct x; try discriminate H.
         eapply nf_trans; [eapply io_read_notexist_nf; exact ER|eapply IH; exact H].
       + discriminate H.
